@@ -61,46 +61,46 @@ func (r *Rand) Weighted(w ...int) int {
 // Profile holds the knobs of the general generator; each property biases it
 // towards its own hazard.
 type Profile struct {
-	Prop               string
-	MinBars, MaxBars   int
-	MaxClients         int
-	MaxOps             int
-	RefreshW           [3]int // auto, manual, none
-	PSmallQueue        float64
-	PSync              float64
-	MaxDecs            int
-	PWrap              float64
-	PListener, PEwma   float64
-	PBuiltin           float64
-	PPop, PRm, PNoPop  float64
-	PTerminal          float64
-	PTightTerm         float64 // terminal height around the number of rows
-	PNarrow            float64 // narrow widths (rows get truncated)
-	PDelay             float64
-	PNotifier          float64
-	PUserWG            float64
+	Prop                                                                       string
+	MinBars, MaxBars                                                           int
+	MaxClients                                                                 int
+	MaxOps                                                                     int
+	RefreshW                                                                   [3]int // auto, manual, none
+	PSmallQueue                                                                float64
+	PSync                                                                      float64
+	MaxDecs                                                                    int
+	PWrap                                                                      float64
+	PListener, PEwma                                                           float64
+	PBuiltin                                                                   float64
+	PPop, PRm, PNoPop                                                          float64
+	PTerminal                                                                  float64
+	PTightTerm                                                                 float64 // terminal height around the number of rows
+	PNarrow                                                                    float64 // narrow widths (rows get truncated)
+	PDelay                                                                     float64
+	PNotifier                                                                  float64
+	PUserWG                                                                    float64
 	WWrite, WPrio, WGet, WRefill, WSleep, WRefresh, WIncr, WSet, WEwma, WTotal int
-	PQueueAfter        float64
-	PExt               float64
-	PAbortFinish       float64
-	PDropOnAbort       float64
-	PLate              float64
-	PClientAdd         float64
-	PShared            float64
-	PCancelEnd         float64
-	PPostTerminalOps   float64
-	PZeroTotal         float64
-	PExplicitPrio      float64
-	PLazy              float64
-	PJoin              float64
-	PManualRefresher   float64
-	PResize            float64
-	FixedWidth         int
-	PrioAfterFinish    bool // allow priority changes on finished bars (see finding F8)
-	PReaders           float64 // extra clients polling getters of bars added up front
-	PRacer             float64 // an extra client aborting another client's bar
-	NoSpinner          bool
-	StrategyW          [4]int // random, rtb, pct, starve
+	PQueueAfter                                                                float64
+	PExt                                                                       float64
+	PAbortFinish                                                               float64
+	PDropOnAbort                                                               float64
+	PLate                                                                      float64
+	PClientAdd                                                                 float64
+	PShared                                                                    float64
+	PCancelEnd                                                                 float64
+	PPostTerminalOps                                                           float64
+	PZeroTotal                                                                 float64
+	PExplicitPrio                                                              float64
+	PLazy                                                                      float64
+	PJoin                                                                      float64
+	PManualRefresher                                                           float64
+	PResize                                                                    float64
+	FixedWidth                                                                 int
+	PrioAfterFinish                                                            bool    // allow priority changes on finished bars (see finding F8)
+	PReaders                                                                   float64 // extra clients polling getters of bars added up front
+	PRacer                                                                     float64 // an extra client aborting another client's bar
+	NoSpinner                                                                  bool
+	StrategyW                                                                  [4]int // random, rtb, pct, starve
 }
 
 // DefaultProfile is the base profile.
